@@ -130,4 +130,66 @@ theorem primorial_table_ok : ∀ i < primorialTable.length, primorialTable.getD 
   decide +kernel
 example : primorialTable.getD 4 0 = 6 := by decide +kernel
 
+/-! ## Fibonacci and Lucas numbers -/
+
+/-- mpn_fib2_ui (model of mpn/generic/fib2_ui.c: table start, bit scan of n, doubling steps with the
+    ±2 applied to the low limb only): for EVERY n the pair is (F(n), F(n-1)), where F(-1) = 1 is
+    expressed as `second + F(n) = F(n+1)`.  Includes: the subtractions never go negative and the
+    low-limb `-2` never borrows (F(4m+3) mod 8 ∈ {1,2,5}). -/
+theorem fib2_ui_spec (n : ℕ) :
+    (mpn_fib2_ui n).1 = Nat.fib n ∧ (mpn_fib2_ui n).2 + Nat.fib n = Nat.fib (n + 1) :=
+  mpn_fib2_ui_pair n
+example : mpn_fib2_ui 200 = (280571172992510140037611932413038677189525, 173402521172797813159685037284371942044301) := by
+  decide +kernel
+
+/-- for n ≥ 1 the second component is F(n-1); mpz_fib2_ui returns the same pair -/
+theorem fib2_ui_spec_pred (n : ℕ) (hn : 1 ≤ n) :
+    mpz_fib2_ui n = (Nat.fib n, Nat.fib (n - 1)) := by
+  have h := mpn_fib2_ui_pair n
+  unfold mpz_fib2_ui
+  exact Prod.ext h.1 (h.pred hn)
+example : mpz_fib2_ui 0 = (0, 1) ∧ mpz_fib2_ui 94 = (Nat.fib 94, Nat.fib 93) := by decide +kernel
+
+/- FULL STATEMENT (not proved): `∀ n < 2^64, mpz_fib_ui n = Nat.fib n`.
+   Proved below except for one number-theoretic fact that the C relies on without proof
+   (mpz/fib_ui.c:36-43 "No proof for this claim"): for n ≡ 1 (mod 4) the `+2` is added to the low limb
+   only, which is right iff F(n) mod 2^64 ∉ {0, 1}.  `≠ 0` is proved here (F(n) is not divisible by 4
+   for odd n); `≠ 1` is the hypothesis `hclaim` (true for every n < 2^64 if, as the comment says, the
+   first such n > 1 is 3·2^63 + 1 — the period of F mod 2^64 is 3·2^63).  For n even or n ≡ 3 (mod 4)
+   the theorem is unconditional (`fib_ui_spec_of_ne_one_mod_four`). -/
+/-- mpz_fib_ui = F(n), given the unproved low-limb claim of fib_ui.c for n ≡ 1 (mod 4) -/
+theorem fib_ui_spec_partial (n : ℕ)
+    (hclaim : n % 4 = 1 → FIB_TABLE_LIMIT < n → Nat.fib n % B ≠ 1) : mpz_fib_ui n = Nat.fib n :=
+  mpz_fib_ui_eq n hclaim
+example : mpz_fib_ui 1001 = Nat.fib 1001 := fib_ui_spec_partial 1001 (by intro _ _; decide +kernel)
+
+/-- unconditional part: every n that is not ≡ 1 (mod 4) (table, F[2k] formula, F[2k+1] with the `-2`) -/
+theorem fib_ui_spec_of_ne_one_mod_four (n : ℕ) (h : n % 4 ≠ 1) : mpz_fib_ui n = Nat.fib n :=
+  mpz_fib_ui_eq n (fun h1 => absurd h1 h)
+example : mpz_fib_ui 999 = Nat.fib 999 := fib_ui_spec_of_ne_one_mod_four 999 (by decide)
+
+/-- mpz_lucnum_ui (model of mpz/lucnum_ui.c: table, trailing-zero stripping, L[2k+1] formula with the
+    low-limb `+4`, squaring steps with the low-limb `+2`): for EVERY n the result is the Lucas number,
+    characterised by L(n) + F(n) = 2 F(n+1); equivalently it equals the executable spec `lucSpec`. -/
+theorem lucnum_ui_spec (n : ℕ) :
+    mpz_lucnum_ui n + Nat.fib n = 2 * Nat.fib (n + 1) ∧ mpz_lucnum_ui n = lucSpec n := by
+  have h : LucVal n (mpz_lucnum_ui n) := mpz_lucnum_ui_val n
+  have h2 := lucSpec_add_fib n
+  unfold LucVal at h
+  exact ⟨h, by omega⟩
+example : mpz_lucnum_ui 186 = 27280388024614569596 * 27280388024614569596 + 2 ∧ mpz_lucnum_ui 0 = 2 := by decide +kernel
+
+/-- mpz_lucnum2_ui: (L(n), L(n-1)) for every n, with L(-1) = -1 -/
+theorem lucnum2_ui_spec (n : ℕ) :
+    (mpz_lucnum2_ui n).1 = (lucSpec n : ℤ) ∧
+    (n = 0 → (mpz_lucnum2_ui n).2 = -1) ∧ (1 ≤ n → (mpz_lucnum2_ui n).2 = (lucSpec (n - 1) : ℤ)) := by
+  obtain ⟨⟨l, e1, v1⟩, h0, h1⟩ := mpz_lucnum2_ui_val n
+  refine ⟨?_, h0, fun hn => ?_⟩
+  · have := lucSpec_add_fib n; unfold LucVal at v1
+    rw [e1]; congr 1; omega
+  · obtain ⟨l1, e2, v2⟩ := h1 hn
+    have := lucSpec_add_fib (n - 1); unfold LucVal at v2
+    rw [e2]; congr 1; omega
+example : mpz_lucnum2_ui 0 = (2, -1) ∧ mpz_lucnum2_ui 100 = (792070839848372253127, 489526700523968661124) := by decide +kernel
+
 end Mpir.Numth
